@@ -34,25 +34,30 @@ pub struct Plan {
 }
 
 const LEX: [&str; 11] = ["a", "b", "ab", " a", "a ", "", "  ", "B", "a1", "\u{a0}b", "\u{3000}ab "];
-const NUM: [&str; 9] = ["2", "10", "9.5", "-3", "0", "-0", "1e3", "", " 7 "];
+// (leading zeros: 007 < 10 and 07 = 7 as numbers, whatever their digit counts)
+const NUM: [&str; 12] = ["2", "10", "9.5", "-3", "0", "-0", "1e3", "", " 7 ", "007", "07", "100"];
 const NUM_BAD: [&str; 3] = ["x", "1_0", "--2"];
 const GROUP_PAT: &str = "id=(?P<value>[^ ]+)";
 const GROUP_LEX: [&str; 8] = ["id=a x", "id=b y", "id=a z", "w id=ab", "noid", "", "  id=b", "id=B"];
-const GROUP_NUM: [&str; 7] = ["id=10", "id=2 q", "id=9.5", "w id=-3", "noid", "", "id=0"];
+const GROUP_NUM: [&str; 9] = ["id=10", "id=2 q", "id=9.5", "w id=-3", "noid", "", "id=0", "id=007", "id=07"];
 const PLAIN_LEX_PAT: &str = "[a-z]+[0-9]*";
 const PLAIN_LEX: [&str; 7] = [".. a1 ..", "b2", "..ab", ". .", "", " a1", "b2 a1"];
 const PLAIN_NUM_PAT: &str = "-?[0-9]+(\\.[0-9]+)?";
-const PLAIN_NUM: [&str; 7] = ["10 .", ".. 2", "9.5", "-3 ..", "..", "", "2 10"];
+const PLAIN_NUM: [&str; 9] = ["10 .", ".. 2", "9.5", "-3 ..", "..", "", "2 10", "007", ".. 07"];
 const DIRS: [(&str, bool); 7] = [("asc", true), ("desc", false), ("", true), ("ASC", true), ("Desc", false), (" ", true), ("dEsC", false)];
 
 const UNIQ: [&str; 11] = ["a", "b", " a", "a ", "a  b", "A", "", "  ", "\ta", "\u{a0}a", "\u{3000} b"];
 const UNIQ_GROUP_PAT: &str = "id=(?P<value>\\w+)";
 const UNIQ_GROUP: [&str; 7] = ["id=a x", "id=a y", "id=b", "x id=a", "noid", "", "id=ab"];
 const UNIQ_PLAIN_PAT: &str = "\\w+";
+// the value group is defined but does not take part in every match: such a line's key is its whole match
+const OPT_GROUP_PAT: &str = "^(?:id=(?P<value>\\w+)|name:\\w+)";
+const OPT_GROUP: [&str; 8] = ["name:bob x", "id=a", "name:bob y", "id=b", "name:al", "", "id=a z", "other"];
 const UNIQ_PLAIN: [&str; 7] = ["a x", "a y", "b", " a", "..", "", ".. b"];
 
 const LP_PATS: [&str; 6] = ["^[a-z]+$", "[0-9]", "^k", "[0-9]+$", "^(abc|k9)$", "b"];
-const LP: [&str; 11] = ["abc", "ab1", " abc ", "k9", "9k", "", "  ", "ABC", "\tb", "\u{a0}9k", "\u{3000}ABC\u{a0}"];
+// (lines of Unicode-only whitespace are blank; U+000B is whitespace for trim())
+const LP: [&str; 14] = ["abc", "ab1", " abc ", "k9", "9k", "", "  ", "ABC", "\tb", "\u{a0}9k", "\u{3000}ABC\u{a0}", "\u{a0}", "\u{3000}\u{2003}", "\u{b}"];
 
 const UNI: [&str; 6] = ["é", "ü1", "日本", "a", "éa", "z"];
 
@@ -103,8 +108,8 @@ pub fn plan(rule: Rule, rng: &mut Rng, idx: usize, tier: Tier) -> Plan {
     match rule {
         Rule::Sorted => {
             let (dir_text, asc) = DIRS[rng.below(DIRS.len())];
-            let mode = rng.below(3);
-            let numeric = rng.chance(2, 5);
+            let mode = rng.below(7) % 4; // 0 plain, 1 group, 2 whole match, 3 optional group (rarer)
+            let numeric = rng.chance(2, 5) && mode != 3;
             let fmt_text = if numeric {
                 Some(rng.pick(&["numeric", "NUMERIC", " Numeric "]).to_string())
             } else if rng.chance(1, 4) {
@@ -117,6 +122,7 @@ pub fn plan(rule: Rule, rng: &mut Rng, idx: usize, tier: Tier) -> Plan {
                 (0, true) => ("", if rng.chance(1, 12) { [&NUM[..], &NUM_BAD[..]].concat() } else { NUM.to_vec() }),
                 (1, false) => (GROUP_PAT, GROUP_LEX.to_vec()),
                 (1, true) => (GROUP_PAT, GROUP_NUM.to_vec()),
+                (3, _) => (OPT_GROUP_PAT, OPT_GROUP.to_vec()),
                 (_, false) => (PLAIN_LEX_PAT, PLAIN_LEX.to_vec()),
                 (_, true) => (PLAIN_NUM_PAT, PLAIN_NUM.to_vec()),
             };
@@ -128,10 +134,11 @@ pub fn plan(rule: Rule, rng: &mut Rng, idx: usize, tier: Tier) -> Plan {
             Plan { rule, asc, dir_text: dir_text.to_string(), pat: respell(rng, pat), numeric, fmt_text, lines, sev, neutral: false }
         }
         Rule::Unique => {
-            let mode = idx % 3;
+            let mode = idx % 4;
             let (pat, alphabet): (&str, &[&str]) = match mode {
                 0 => ("", &UNIQ),
                 1 => (UNIQ_GROUP_PAT, &UNIQ_GROUP),
+                2 => (OPT_GROUP_PAT, &OPT_GROUP),
                 _ => (UNIQ_PLAIN_PAT, &UNIQ_PLAIN),
             };
             let lines = seq(rng, alphabet, idx / 3, tier);
